@@ -96,7 +96,6 @@ def amount? (s : String) : Option Amount := (str? s).map strToBigInt
 
 def showAmount : Amount → String
   | .err => "err"
-  | .outside => "unmodelled"
   | .val v => toString v
 
 def statusChar : Status → Char
@@ -106,8 +105,8 @@ def statusChar : Status → Char
 
 /-- A transaction that leaves the modelled amount domain makes the whole block `unmodelled`. -/
 def txOutside : Tx → Bool
-  | .operator _ _ ts => ts.any (fun p => p.2 == Amount.outside)
-  | .contract t => strToBigInt t.value == Amount.outside || t.nz + t.z ≥ 2 ^ 20
+  | .operator _ _ _ => false
+  | .contract t => t.nz + t.z ≥ 2 ^ 20
   | .lock _ _ _ => false
   | .node _ _ => false
 
